@@ -23,7 +23,7 @@ Theorem C14_foreign_refused :
     rg (actx ar) s = Some sid -> nth_error (handles w) h = Some (Some hd) ->
     get (actx ar) sid = Some so -> okind so = KSet -> live so = true ->
     (h_uid hd <> auid ar \/ h_set hd <> sid) ->
-    micro w ar k (MFetch r s h) = (ar, handles w, [0%Z; (-1)%Z]).
+    micro w ar k (MFetch r s h) = (ar, handles w, [0%Z; (-1)%Z; Z.of_nat sid]).
 Proof.
   intros w ar k r s h sid hd so RS NH G K L NE. destruct ar as [c uid sets]. cbn in *.
   rewrite RS, NH, G, K, L.
